@@ -12,6 +12,7 @@ Notation pt := (print_table templates_current).
 Notation parg := (print_tvf_arg templates_current).
 Notation ptr := (print_trigger templates_current).
 Notation pord := (print_order templates_current).
+Notation pcte := (print_cte templates_current).
 Notation commas := (join_with [TK P_comma]).
 
 Lemma guards_hold : guards_ok = true. Proof. reflexivity. Qed.
@@ -61,37 +62,39 @@ Lemma sh_subquery s : pe (ESubquery s) = TK P_lparen :: ps s ++ [TK P_rparen].
 Proof. change (pe (ESubquery s)) with (interp tpl_Subquery [("Select", fv (ps s))]%string). apply env_subquery. Qed.
 
 Definition pwhere (w : option expr) : list token := match w with None => [] | Some e => TK K_where :: pe e end.
+Definition phaving (w : option expr) : list token := match w with None => [] | Some e => TK K_having :: pe e end.
 Definition plimit (l : option limit) : list token :=
   match l with
   | None => []
   | Some (Limit None rc) => TK K_limit :: pe rc
   | Some (Limit (Some o) rc) => TK K_limit :: pe o ++ TK P_comma :: pe rc
   end.
-Lemma env_select (D A B W G Tr O L : list token) :
+Lemma env_select (D A B W G H Tr O L : list token) :
   interp tpl_Select
     [("Comments", fv []); ("Cache", fv []); ("Distinct", fv D); ("Hints", fv []);
-     ("SelectExprs", fv A); ("From", fv B); ("Where", fv W); ("GroupBy", fv G); ("Having", fv []);
+     ("SelectExprs", fv A); ("From", fv B); ("Where", fv W); ("GroupBy", fv G); ("Having", fv H);
      ("Trigger", fv Tr); ("OrderBy", fv O); ("Limit", fv L); ("Lock", fv [])]%string
-  = TK K_select :: D ++ A ++ TK K_from :: B ++ W ++ G ++ Tr ++ O ++ L.
+  = TK K_select :: D ++ A ++ TK K_from :: B ++ W ++ G ++ H ++ Tr ++ O ++ L.
 Proof. sh. Qed.
 Lemma env_where X : interp tpl_Where [("Type", fv str_WhereStr); ("Expr", fv X)]%string = TK K_where :: X. Proof. sh. Qed.
+Lemma env_having X : interp tpl_Where [("Type", fv str_HavingStr); ("Expr", fv X)]%string = TK K_having :: X. Proof. sh. Qed.
 Lemma env_limit0 X : interp tpl_Limit [("node.Offset != nil", fv_opt [] false); ("Offset", fv []); ("Rowcount", fv X)]%string = TK K_limit :: X. Proof. sh. Qed.
 Lemma env_limit1 Y X : interp tpl_Limit [("node.Offset != nil", fv_opt [] true); ("Offset", fv Y); ("Rowcount", fv X)]%string = TK K_limit :: Y ++ TK P_comma :: X. Proof. sh. Qed.
 
-Lemma sh_select d items from w gb trs ob lim :
-  ps (Select d items from w gb trs ob lim) =
+Lemma sh_select d items from w gb hv trs ob lim :
+  ps (Select d items from w gb hv trs ob lim) =
   TK K_select :: (if d then [TK K_distinct] else []) ++ commas (map psel items) ++
-  TK K_from :: commas (map pt from) ++ pwhere w ++ kw_list [TK K_group; TK K_by] (map pe gb) ++
+  TK K_from :: commas (map pt from) ++ pwhere w ++ kw_list [TK K_group; TK K_by] (map pe gb) ++ phaving hv ++
   kw_list [TK K_trigger] (map ptr trs) ++ kw_list [TK K_order; TK K_by] (map pord ob) ++ plimit lim.
 Proof.
-  change (ps (Select d items from w gb trs ob lim)) with
+  change (ps (Select d items from w gb hv trs ob lim)) with
     (interp tpl_Select
        [("Comments", fv []); ("Cache", fv []); ("Distinct", fv (if d then str_DistinctStr else [])); ("Hints", fv []);
         ("SelectExprs", fv (interp_list lst_SelectExprs (map psel items)));
         ("From", fv (interp_list lst_TableExprs (map pt from)));
         ("Where", fv (match w with None => [] | Some e => interp tpl_Where [("Type", fv str_WhereStr); ("Expr", fv (pe e))] end));
         ("GroupBy", fv (interp_list lst_GroupBy (map pe gb)));
-        ("Having", fv []);
+        ("Having", fv (match hv with None => [] | Some e => interp tpl_Where [("Type", fv str_HavingStr); ("Expr", fv (pe e))] end));
         ("Trigger", fv (interp_list lst_Triggers (map ptr trs)));
         ("OrderBy", fv (interp_list lst_OrderBy (map pord ob)));
         ("Limit", fv (match lim with
@@ -103,8 +106,42 @@ Proof.
                       end));
         ("Lock", fv [])]%string).
   rewrite env_select, il_sels, il_tables, il_groupby, il_triggers, il_orderby.
-  destruct w as [e|]; [rewrite env_where|]; (destruct lim as [[[o|] rc]|]; [rewrite env_limit1|rewrite env_limit0|]);
+  destruct w as [e|]; [rewrite env_where|]; (destruct hv as [h|]; [rewrite env_having|]); (destruct lim as [[[o|] rc]|]; [rewrite env_limit1|rewrite env_limit0|]);
     destruct d; reflexivity.
+Qed.
+Lemma il_ctes l : interp_list lst_CommonTableExpressions l = commas l. Proof. destruct l; reflexivity. Qed.
+Lemma env_with A B : interp tpl_With [("CommonTableExpressions", fv A); ("Select", fv B)]%string = TK K_with :: A ++ B. Proof. sh. Qed.
+Lemma sh_with ctes body : ps (With ctes body) = TK K_with :: commas (map pcte ctes) ++ ps body.
+Proof. change (ps (With ctes body)) with (interp tpl_With [("CommonTableExpressions", fv (interp_list lst_CommonTableExpressions (map pcte ctes))); ("Select", fv (ps body))]%string).
+  rewrite env_with, il_ctes. reflexivity. Qed.
+Lemma env_cte n A : interp tpl_CommonTableExpression [("Name", fv (p_id n)); ("Select", fv A)]%string = TId n :: TK K_as :: TK P_lparen :: A ++ [TK P_rparen]. Proof. sh. Qed.
+Lemma sh_cte n s : pcte (Cte n s) = TId n :: TK K_as :: TK P_lparen :: ps s ++ [TK P_rparen].
+Proof. change (pcte (Cte n s)) with (interp tpl_CommonTableExpression [("Name", fv (p_id n)); ("Select", fv (ps s))]%string). apply env_cte. Qed.
+Lemma sh_range neg l f t : pe (ERange neg l f t) = pe l ++ (if neg then [TK K_not; TK K_between] else [TK K_between]) ++ pe f ++ TK K_and :: pe t.
+Proof. destruct neg; sh. Qed.
+Lemma env_exists A : interp tpl_ExistsExpr [("Subquery", fv (interp tpl_Subquery [("Select", fv A)]))]%string = TK K_exists :: TK P_lparen :: A ++ [TK P_rparen]. Proof. sh. Qed.
+Lemma sh_exists s : pe (EExists s) = TK K_exists :: TK P_lparen :: ps s ++ [TK P_rparen].
+Proof. change (pe (EExists s)) with (interp tpl_ExistsExpr [("Subquery", fv (interp tpl_Subquery [("Select", fv (ps s))]))]%string). apply env_exists. Qed.
+Lemma sh_index x i : pe (EIndex x i) = pe x ++ TK P_lbracket :: pe i ++ [TK P_rbracket]. Proof. sh. Qed.
+Definition pwhen (w : expr * expr) : list token := TK K_when :: pe (fst w) ++ TK K_then :: pe (snd w).
+Definition popt (k : kw) (e : option expr) : list token := match e with None => [] | Some x => TK k :: pe x end.
+Lemma env_when A B : interp tpl_When [("Cond", fv A); ("Val", fv B)]%string = TK K_when :: A ++ TK K_then :: B. Proof. sh. Qed.
+Lemma env_case c E W l L : interp tpl_CaseExpr
+   [("node.Expr != nil", fv_opt [] c); ("Expr", fv E); ("Whens", fv W); ("node.Else != nil", fv_opt [] l); ("Else", fv L)]%string
+   = TK K_case :: (if c then E else []) ++ W ++ (if l then TK K_else :: L else []) ++ [TK K_end].
+Proof. destruct c, l; sh. Qed.
+Lemma sh_case e ws els : pe (ECase e ws els) =
+  TK K_case :: match e with Some x => pe x | None => [] end ++ List.concat (map pwhen ws) ++ popt K_else els ++ [TK K_end].
+Proof.
+  change (pe (ECase e ws els)) with (interp tpl_CaseExpr
+        [("node.Expr != nil", fv_opt [] (match e with Some _ => true | None => false end));
+         ("Expr", fv (match e with Some x => pe x | None => [] end));
+         ("Whens", fv (List.concat (map (fun w => interp tpl_When [("Cond", fv (pe (fst w))); ("Val", fv (pe (snd w)))]) ws)));
+         ("node.Else != nil", fv_opt [] (match els with Some _ => true | None => false end));
+         ("Else", fv (match els with Some x => pe x | None => [] end))]%string).
+  rewrite env_case. replace (map (fun w => interp tpl_When [("Cond", fv (pe (fst w))); ("Val", fv (pe (snd w)))]%string) ws) with (map pwhen ws)
+    by (apply map_ext; intros w; unfold pwhen; rewrite env_when; reflexivity).
+  destruct e, els; reflexivity.
 Qed.
 
 (* select items *)
@@ -166,10 +203,11 @@ Notation PA := parsers_at.
 Definition cont_level (t : token) : nat :=
   match t with
   | TK K_or => 1 | TK K_and => 2 | TK K_is => 4
-  | TK P_eq | TK P_lt | TK P_gt | TK P_le | TK P_ge | TK P_ne | TK P_nseq | TK K_like | TK K_in | TK K_not => 5
+  | TK P_eq | TK P_lt | TK P_gt | TK P_le | TK P_ge | TK P_ne | TK P_nseq | TK K_like | TK K_in | TK K_not
+  | TK K_between | TK K_regexp | TK P_tilde | TK P_tildestar | TK P_ntilde | TK P_ntildestar => 5
   | TK P_plus | TK P_minus => 6
   | TK P_star | TK P_slash => 7
-  | TK P_arrow | TK P_cast => 9
+  | TK P_arrow | TK P_cast | TK P_lbracket => 9
   | TK P_lparen | TK P_dot => 10
   | _ => 0
   end%nat.
@@ -177,11 +215,12 @@ Definition fol (L : nat) (R : list token) : Prop := match R with [] => True | t 
 Lemma fol_mono L L' R : fol L R -> (L <= L')%nat -> fol L' R.
 Proof. destruct R; simpl; intros; [trivial|lia]. Qed.
 
-(* how an expression's printed text starts: 1 = NOT, 2 = '-', 3 = anything else an expression starts with *)
+(* how an expression's printed text starts: 1 = NOT, 2 = EXISTS, 3 = '-', 4 = anything else an expression starts with *)
 Definition hclass (t : token) : nat :=
   match t with
-  | TK K_not => 1 | TK P_minus => 2
-  | TId _ | TStr _ | TInt _ | TFloat _ | TK K_true | TK K_false | TK K_null | TK P_lparen | TK K_interval | TK K_convert => 3
+  | TK K_not => 1 | TK K_exists => 2 | TK P_minus => 3
+  | TId _ | TStr _ | TInt _ | TFloat _ | THex _ | TBit _ | THexNum _ | TArg _
+  | TK K_true | TK K_false | TK K_null | TK P_lparen | TK K_interval | TK K_convert | TK K_case => 4
   | _ => 0
   end%nat.
 Definition hd_ge (c : nat) (l : list token) : Prop := match l with t :: _ => (c <= hclass t)%nat | [] => False end.
@@ -190,7 +229,7 @@ Lemma hd_ge_mono c c' x : hd_ge c x -> (c' <= c)%nat -> hd_ge c' x. Proof. destr
 
 (* case analysis on the first token of a list known by hd_ge / fol *)
 Ltac tokcases X H :=
-  destruct X as [|[[]| | | | | | ] ?]; simpl in H; try contradiction; try lia; try reflexivity.
+  destruct X as [|[[]| | | | | | | | | | ] ?]; simpl in H; try contradiction; try lia; try reflexivity.
 
 Section LoopState.
   Context {A : Type}.
@@ -239,7 +278,7 @@ Lemma stop_mul R : fol 7 R -> match R with [] => True | t :: _ => op_mul t = Non
 Definition not_comma (R : list token) : Prop := match R with TK P_comma :: _ => False | _ => True end.
 Lemma sep_one {A} (item : list token -> res A) X R x k :
   item (X ++ R) = Ok (x, R) -> not_comma R -> sep_list item k (X ++ R) = Ok ([x], R).
-Proof. intros H1 H2. destruct k; simpl; rewrite H1; simpl; destruct R as [|[[]| | | | | | ] ?]; simpl in H2; try contradiction; reflexivity. Qed.
+Proof. intros H1 H2. destruct k; simpl; rewrite H1; simpl; destruct R as [|[[]| | | | | | | | | | ] ?]; simpl in H2; try contradiction; reflexivity. Qed.
 Lemma sep_cons {A} (item : list token -> res A) X Y x xs R k :
   item (X ++ TK P_comma :: Y) = Ok (x, TK P_comma :: Y) -> sep_list item k Y = Ok (xs, R) ->
   sep_list item (S k) (X ++ TK P_comma :: Y) = Ok (x :: xs, R).
@@ -266,7 +305,9 @@ Lemma d_in_rhs X R : hd_ge 1 X ->
   obind (sep_list (p_expr P) (List.length (X ++ R)) (X ++ R)) (fun p => let '(es, r1) := p in
     expect P_rparen r1 (fun r2 => Ok (ETuple es, r2))).
 Proof. intros H. tokcases X H. Qed.
-Lemma d_unary X R : hd_ge 3 X -> unary_ P (X ++ R) = postfix_ P (X ++ R).
+Lemma d_unary X R : hd_ge 4 X -> unary_ P (X ++ R) = postfix_ P (X ++ R).
+Proof. intros H. tokcases X H. Qed.
+Lemma d_cond X R : hd_ge 3 X -> cond_ P (X ++ R) = obind (add_ P (X ++ R)) (fun p => let '(l, r) := p in cond_rest P l r).
 Proof. intros H. tokcases X H. Qed.
 Lemma d_not X R : hd_ge 2 X -> not_ P (X ++ R) = is_ P (X ++ R).
 Proof. intros H. tokcases X H. Qed.
@@ -293,8 +334,13 @@ Inductive im_primary : expr -> Prop :=
 | ip_func0 f : im_primary (EFunc f false [])
 | ip_func f d es : im_exprs es -> im_primary (EFunc f d es)
 | ip_col t c : im_primary (ECol t c)
+| ip_case e ws els : im_oexpr e -> im_whens ws -> im_oexpr els -> im_primary (ECase e ws els)
+with im_whens : list (expr * expr) -> Prop :=
+| iw_one c v : im_or c -> im_or v -> im_whens [(c, v)]
+| iw_cons c v ws : im_or c -> im_or v -> im_whens ws -> im_whens ((c, v) :: ws)
 with im_postfix : expr -> Prop :=
 | ipf_field e f : im_postfix e -> im_postfix (EField e f)
+| ipf_index e i : im_postfix e -> im_add i -> im_postfix (EIndex e i)
 | ipf_base e : im_primary e -> im_postfix e
 with im_unary : expr -> Prop :=
 | iu_neg e : im_unary e -> not_intlit e -> im_unary (ENeg e)
@@ -310,6 +356,8 @@ with im_cond : expr -> Prop :=
 | ic_cmp op l r : cmp_plain op -> im_add l -> im_add r -> im_cond (ECmp op l r)
 | ic_in op l es : cmp_in op -> im_add l -> im_exprs es -> im_cond (ECmp op l (ETuple es))
 | ic_insub op l s : cmp_in op -> im_add l -> im_select s -> im_cond (ECmp op l (ESubquery s))
+| ic_between neg l f t : im_add l -> im_add f -> im_add t -> im_cond (ERange neg l f t)
+| ic_exists s : im_select s -> im_cond (EExists s)
 | ic_base e : im_add e -> im_cond e
 with im_is : expr -> Prop :=
 | ii_step op e : im_is e -> im_is (EIs op e)
@@ -333,9 +381,15 @@ with im_exprs0 : list expr -> Prop :=
 | ie0_nil : im_exprs0 []
 | ie0_some es : im_exprs es -> im_exprs0 es
 with im_select : select -> Prop :=
-| isel d items from w gb trs ob lim :
-    im_sels items -> im_trefs from -> im_oexpr w -> im_exprs0 gb -> im_triggers0 trs -> im_orders0 ob -> im_olimit lim ->
-    im_select (Select d items from w gb trs ob lim)
+| isel d items from w gb hv trs ob lim :
+    im_sels items -> im_trefs from -> im_oexpr w -> im_exprs0 gb -> im_oexpr hv -> im_triggers0 trs -> im_orders0 ob -> im_olimit lim ->
+    im_select (Select d items from w gb hv trs ob lim)
+| iwith ctes body : im_ctes ctes -> im_select body -> im_select (With ctes body)
+with im_cte : cte -> Prop :=
+| icte n s : im_select s -> im_cte (Cte n s)
+with im_ctes : list cte -> Prop :=
+| ict_one c : im_cte c -> im_ctes [c]
+| ict_cons c cs : im_cte c -> im_ctes cs -> im_ctes (c :: cs)
 with im_olimit : option limit -> Prop :=
 | iol_none : im_olimit None
 | iol_plain rc : im_or rc -> im_olimit (Some (Limit None rc))
@@ -391,6 +445,7 @@ with im_orders0 : list order -> Prop :=
 | io0_some xs : im_orders xs -> im_orders0 xs.
 
 Scheme im_primary_mi := Minimality for im_primary Sort Prop
+  with im_whens_mi := Minimality for im_whens Sort Prop
   with im_postfix_mi := Minimality for im_postfix Sort Prop
   with im_unary_mi := Minimality for im_unary Sort Prop
   with im_mul_mi := Minimality for im_mul Sort Prop
@@ -404,6 +459,8 @@ Scheme im_primary_mi := Minimality for im_primary Sort Prop
   with im_oexpr_mi := Minimality for im_oexpr Sort Prop
   with im_exprs0_mi := Minimality for im_exprs0 Sort Prop
   with im_select_mi := Minimality for im_select Sort Prop
+  with im_cte_mi := Minimality for im_cte Sort Prop
+  with im_ctes_mi := Minimality for im_ctes Sort Prop
   with im_olimit_mi := Minimality for im_olimit Sort Prop
   with im_sel_mi := Minimality for im_sel Sort Prop
   with im_sels_mi := Minimality for im_sels Sort Prop
@@ -419,8 +476,8 @@ Scheme im_primary_mi := Minimality for im_primary Sort Prop
   with im_order_mi := Minimality for im_order Sort Prop
   with im_orders_mi := Minimality for im_orders Sort Prop
   with im_orders0_mi := Minimality for im_orders0 Sort Prop.
-Combined Scheme im_mutind from im_primary_mi, im_postfix_mi, im_unary_mi, im_mul_mi, im_add_mi, im_cond_mi, im_is_mi,
-  im_not_mi, im_and_mi, im_or_mi, im_exprs_mi, im_oexpr_mi, im_exprs0_mi, im_select_mi, im_olimit_mi, im_sel_mi, im_sels_mi,
+Combined Scheme im_mutind from im_primary_mi, im_whens_mi, im_postfix_mi, im_unary_mi, im_mul_mi, im_add_mi, im_cond_mi, im_is_mi,
+  im_not_mi, im_and_mi, im_or_mi, im_exprs_mi, im_oexpr_mi, im_exprs0_mi, im_select_mi, im_cte_mi, im_ctes_mi, im_olimit_mi, im_sel_mi, im_sels_mi,
   im_tfactor_mi, im_tref_mi, im_trefs_mi, im_arg_mi, im_args_mi, im_args0_mi, im_trigger_mi, im_triggers_mi, im_triggers0_mi,
   im_order_mi, im_orders_mi, im_orders0_mi.
 
@@ -434,16 +491,16 @@ Definition sfol (R : list token) : Prop := match R with [] => True | TK P_rparen
 Lemma sfol_fol R : sfol R -> fol 1 R. Proof. intros H. tokcases R H; simpl; try exact I; lia. Qed.
 Lemma sfol_nc R : sfol R -> not_comma R. Proof. intros H. tokcases R H; trivial. Qed.
 
-Definition cl_primary a := hd_ge 3 (pe a) /\ starts_minus a = false /\
+Definition cl_primary a := hd_ge 4 (pe a) /\ starts_minus a = false /\
   forall n R, (len (pe a) <= n)%nat -> fol 10 R -> primary_ (PA n) (pe a ++ R) = Ok (a, R).
-Definition cl_postfix a := hd_ge 3 (pe a) /\ starts_minus a = false /\
-  forall n R, (len (pe a) <= n)%nat -> fol 10 R -> lst (primary_ (PA n)) postfix_loop (pe a) R a.
+Definition cl_postfix a := hd_ge 4 (pe a) /\ starts_minus a = false /\
+  forall n R, (len (pe a) <= n)%nat -> fol 10 R -> lst (primary_ (PA n)) (postfix_loop (PA n)) (pe a) R a.
 Definition um a := starts_minus a && negb (is_neg a) = false \/ ~ not_intlit a.
-Definition cl_unary a := hd_ge 2 (pe a) /\ um a /\
+Definition cl_unary a := hd_ge 3 (pe a) /\ um a /\
   forall n R, (len (pe a) <= n)%nat -> fol 9 R -> unary_ (PA n) (pe a ++ R) = Ok (a, R).
-Definition cl_mul a := hd_ge 2 (pe a) /\
+Definition cl_mul a := hd_ge 3 (pe a) /\
   forall n R, (len (pe a) <= n)%nat -> fol 8 R -> lst (unary_ (PA n)) (chain_loop (unary_ (PA n)) op_mul) (pe a) R a.
-Definition cl_add a := hd_ge 2 (pe a) /\
+Definition cl_add a := hd_ge 3 (pe a) /\
   forall n R, (len (pe a) <= n)%nat -> fol 7 R -> lst (mul_ (PA n)) (chain_loop (mul_ (PA n)) op_add) (pe a) R a.
 Definition cl_cond a := hd_ge 2 (pe a) /\
   forall n R, (len (pe a) <= n)%nat -> fol 5 R -> cond_ (PA n) (pe a ++ R) = Ok (a, R).
@@ -460,7 +517,7 @@ Definition cl_exprs es := es <> [] /\ hd_ge 1 (commas (map pe es)) /\
     sep_list (p_expr (PA n)) k (commas (map pe es) ++ R) = Ok (es, R).
 Definition cl_select s := forall n R, (len (ps s) <= n)%nat -> sfol R -> select_ (PA n) (ps s ++ R) = Ok (s, R).
 
-Lemma postfix_stop k a R : fol 9 R -> postfix_loop k a R = Ok (a, R).
+Lemma postfix_stop P k a R : fol 9 R -> postfix_loop P k a R = Ok (a, R).
 Proof. intros H. destruct k; tokcases R H. Qed.
 Lemma is_stop k a R : fol 4 R -> is_loop k a R = Ok (a, R).
 Proof. intros H. destruct k; tokcases R H. Qed.
@@ -493,19 +550,21 @@ Proof. intros H n R Hn HR. destruct n; [lia|]. apply H; auto. lia. Qed.
 
 Lemma commas_len (l : list (list token)) : (List.length l <= S (len (commas l)))%nat.
 Proof. induction l as [|x [|y l] IH]; [simpl; lia|rewrite commas_one; simpl; lia|]. rewrite commas_cons2, app_length. simpl in *. lia. Qed.
-Lemma ps_head s : exists tl, ps s = TK K_select :: tl.
-Proof. destruct s. rewrite sh_select. eauto. Qed.
+Definition shead (X : list token) : Prop := match X with TK K_select :: _ | TK K_with :: _ => True | _ => False end.
+Lemma shead_app X Y : shead X -> shead (X ++ Y). Proof. destruct X as [|[[]| | | | | | | | | | ] ?]; simpl; tauto. Qed.
+Lemma ps_head s : shead (ps s).
+Proof. destruct s; [rewrite sh_select|rewrite sh_with]; exact I. Qed.
 
 Section Dispatch2.
 Variable P : parsers.
-Lemma d_primary_sub X R : (exists tl, X = TK K_select :: tl) ->
+Lemma d_primary_sub X R : shead X ->
   primary_ P (TK P_lparen :: X ++ R) =
   obind (p_select P (X ++ R)) (fun p => let '(s, r1) := p in expect P_rparen r1 (fun r2 => Ok (ESubquery s, r2))).
-Proof. intros [tl ->]. reflexivity. Qed.
-Lemma d_in_rhs_sub X R : (exists tl, X = TK K_select :: tl) ->
+Proof. intros H. destruct X as [|[[]| | | | | | | | | | ] ?]; simpl in H; try contradiction; reflexivity. Qed.
+Lemma d_in_rhs_sub X R : shead X ->
   in_rhs P (TK P_lparen :: X ++ R) =
   obind (p_select P (X ++ R)) (fun p => let '(s, r1) := p in expect P_rparen r1 (fun r2 => Ok (ESubquery s, r2))).
-Proof. intros [tl ->]. reflexivity. Qed.
+Proof. intros H. destruct X as [|[[]| | | | | | | | | | ] ?]; simpl in H; try contradiction; reflexivity. Qed.
 End Dispatch2.
 
 (* ---- expression cases ---- *)
@@ -522,7 +581,7 @@ Proof. intros H (Hne & Hh & Hes). destruct es as [|e' es']; [contradiction|].
   apply Hes; auto. lia. simpl in *; lia. Qed.
 
 Lemma case_ip_lit l : lit_pos l -> cl_primary (ELit l).
-Proof. intros H. destruct l as [s|[] d|s| | |]; try contradiction; (split; [simpl; lia|]); (split; [reflexivity|]); intros; reflexivity. Qed.
+Proof. intros H. destruct l as [s|[] d|s| | | |s|s|s|s]; try contradiction; (split; [simpl; lia|]); (split; [reflexivity|]); intros; reflexivity. Qed.
 
 Lemma case_ip_paren e : cl_or e -> cl_primary (EParen e).
 Proof. intros H. ugoal; rewrite sh_paren. split; [simpl; lia|]. split; [reflexivity|]. intros n R Hn HR. simpl in Hn. rewrite app_length in Hn. simpl in Hn.
@@ -581,7 +640,7 @@ Proof. intros (Hh & Hu & Hp) Hni. assert (Hsm : starts_minus e && negb (is_neg e
   simpl. rewrite Hp; auto; try lia. simpl. destruct e; try reflexivity. destruct l; try reflexivity. contradiction. Qed.
 Lemma case_iu_negint d : cl_unary (ELit (LInt true d)).
 Proof. split; [simpl; lia|]. split; [right; simpl; tauto|]. intros n R Hn HR.
-  change (obind (postfix_loop (List.length R) (ELit (LInt false d)) R) (fun p => let '(e, r') := p in Ok (neg_fold e, r')) = Ok (ELit (LInt true d), R)).
+  change (obind (postfix_loop (PA n) (List.length R) (ELit (LInt false d)) R) (fun p => let '(e, r') := p in Ok (neg_fold e, r')) = Ok (ELit (LInt true d), R)).
   rewrite postfix_stop by auto. reflexivity. Qed.
 Lemma case_iu_base e : cl_postfix e -> cl_unary e.
 Proof. intros H. pose proof H as (Hh & Hs & _). split; [eapply hd_ge_mono; eauto|]. split; [left; rewrite Hs; reflexivity|].
@@ -606,31 +665,32 @@ Lemma case_iad_base e : cl_mul e -> cl_add e.
 Proof. intros H. split; [apply H|]. intros. apply lst_base. apply (full_mul e H); auto. Qed.
 
 Lemma case_ic_base e : cl_add e -> cl_cond e.
-Proof. intros H. split; [apply H|]. intros n R Hn HR. unfold cond_. rewrite (full_add e H) by (auto; eapply fol_mono; eauto).
+Proof. intros H. split; [eapply hd_ge_mono; [apply H|lia]|]. intros n R Hn HR. rewrite d_cond by apply H. rewrite (full_add e H) by (auto; eapply fol_mono; eauto).
   simpl. tokcases R HR. Qed.
 
 Lemma case_ic_cmp op l r : cmp_plain op -> cl_add l -> cl_add r -> cl_cond (ECmp op l r).
-Proof. intros Hop Hl Hr. ugoal; rewrite sh_cmp. split; [apply hd_ge_app, Hl|]. intros n R Hn HR.
-  rewrite !app_length in Hn. unfold cond_. rewrite <- app_assoc.
+Proof. intros Hop Hl Hr. ugoal; rewrite sh_cmp. split; [apply hd_ge_app; eapply hd_ge_mono; [apply Hl|lia]|]. intros n R Hn HR.
+  rewrite !app_length in Hn. rewrite <- app_assoc. rewrite d_cond by apply Hl.
   destruct op; try contradiction; simpl in Hn; cbn [cmp_str app str_EqualStr str_LessThanStr str_GreaterThanStr str_LessEqualStr
-     str_GreaterEqualStr str_NotEqualStr str_NullSafeEqualStr str_LikeStr str_NotLikeStr];
+     str_GreaterEqualStr str_NotEqualStr str_NullSafeEqualStr str_LikeStr str_NotLikeStr str_RegexpStr str_NotRegexpStr
+     str_LikeRegexpStr str_LikeRegexpCaseInsensitiveStr str_NotLikeRegexpStr str_NotLikeRegexpCaseInsensitiveStr];
   (rewrite (full_add l Hl) by (try lia; simpl; lia)); simpl;
   (rewrite (full_add r Hr) by (try lia; eapply fol_mono; eauto)); reflexivity. Qed.
 
 Lemma case_ic_in op l es : cmp_in op -> cl_add l -> cl_exprs es -> cl_cond (ECmp op l (ETuple es)).
-Proof. intros Hop Hl (Hne & Hh & Hp). ugoal; rewrite sh_cmp, sh_tuple. split; [apply hd_ge_app, Hl|]. intros n R Hn HR.
-  rewrite !app_length in Hn. simpl in Hn. rewrite app_length in Hn. simpl in Hn. unfold cond_. rewrite <- app_assoc.
+Proof. intros Hop Hl (Hne & Hh & Hp). ugoal; rewrite sh_cmp, sh_tuple. split; [apply hd_ge_app; eapply hd_ge_mono; [apply Hl|lia]|]. intros n R Hn HR.
+  rewrite !app_length in Hn. simpl in Hn. rewrite app_length in Hn. simpl in Hn. rewrite <- app_assoc. rewrite d_cond by apply Hl.
   assert (Hk : forall R', (List.length es <= S (len (commas (map pe es) ++ R')))%nat).
   { intros R'. pose proof (commas_len (map pe es)). rewrite map_length, app_length in *. lia. }
   destruct op; try contradiction; simpl in Hn; cbn [cmp_str app str_InStr str_NotInStr];
-  (rewrite (full_add l Hl) by (try lia; simpl; lia)); cbn [obind]; norm;
+  (rewrite (full_add l Hl) by (try lia; simpl; lia)); cbn [obind]; unfold cond_rest; cbn [obind]; norm;
   rewrite d_in_rhs by apply Hh; rewrite Hp by (simpl; auto; lia); reflexivity. Qed.
 
 Lemma case_ic_insub op l s : cmp_in op -> cl_add l -> cl_select s -> cl_cond (ECmp op l (ESubquery s)).
-Proof. intros Hop Hl Hs. ugoal; rewrite sh_cmp, sh_subquery. split; [apply hd_ge_app, Hl|]. intros n R Hn HR.
-  rewrite !app_length in Hn. simpl in Hn. rewrite app_length in Hn. simpl in Hn. unfold cond_. rewrite <- app_assoc.
+Proof. intros Hop Hl Hs. ugoal; rewrite sh_cmp, sh_subquery. split; [apply hd_ge_app; eapply hd_ge_mono; [apply Hl|lia]|]. intros n R Hn HR.
+  rewrite !app_length in Hn. simpl in Hn. rewrite app_length in Hn. simpl in Hn. rewrite <- app_assoc. rewrite d_cond by apply Hl.
   destruct op; try contradiction; simpl in Hn; cbn [cmp_str app str_InStr str_NotInStr];
-  (rewrite (full_add l Hl) by (try lia; simpl; lia)); cbn [obind]; norm;
+  (rewrite (full_add l Hl) by (try lia; simpl; lia)); cbn [obind]; unfold cond_rest; cbn [obind]; norm;
   rewrite d_in_rhs_sub by apply ps_head; rewrite entry_select by (simpl; auto; lia); reflexivity. Qed.
 
 Lemma case_ii_step op e : cl_is e -> cl_is (EIs op e).
@@ -670,11 +730,11 @@ Proof. intros H. split; [apply H|]. intros. apply lst_base. apply (full_and e H)
 (* what may follow a clause: a later clause keyword, ')' or the end *)
 Definition ckw (t : token) : nat :=
   match t with
-  | TK K_where => 1 | TK K_group => 2 | TK K_trigger => 3 | TK K_order => 4 | TK K_limit => 5 | TK P_rparen => 6 | _ => 0
+  | TK K_where => 1 | TK K_group => 2 | TK K_having => 3 | TK K_trigger => 4 | TK K_order => 5 | TK K_limit => 6 | TK P_rparen => 7 | _ => 0
   end%nat.
 Definition clf (i : nat) (X : list token) : Prop := match X with [] => True | t :: _ => (i <= ckw t)%nat end.
 Lemma clf_mono i j X : clf i X -> (j <= i)%nat -> clf j X. Proof. destruct X; simpl; [tauto|lia]. Qed.
-Lemma sfol_clf R : sfol R -> clf 6 R. Proof. intros H. tokcases R H; simpl; try exact I; lia. Qed.
+Lemma sfol_clf R : sfol R -> clf 7 R. Proof. intros H. tokcases R H; simpl; try exact I; lia. Qed.
 Lemma clf_fol X : clf 1 X -> fol 1 X. Proof. intros H. tokcases X H; simpl; try exact I; lia. Qed.
 Lemma clf_nc X : clf 1 X -> not_comma X. Proof. intros H. tokcases X H; simpl; exact I. Qed.
 Lemma clf_app i A X : (A = [] \/ clf i A /\ A <> []) -> clf i X -> clf i (A ++ X).
@@ -683,7 +743,9 @@ Lemma clf_pwhere w X : clf 2 X -> clf 1 (pwhere w ++ X).
 Proof. intros H. destruct w; simpl. lia. (eapply clf_mono; [eassumption|lia]). Qed.
 Lemma clf_kwlist i k1 ks l X : clf (S i) X -> (i <= ckw k1)%nat -> clf i (kw_list (k1 :: ks) l ++ X).
 Proof. intros H Hk. destruct l; unfold kw_list; simpl. (eapply clf_mono; [eassumption|lia]). exact Hk. Qed.
-Lemma clf_plimit lim X : clf 6 X -> clf 5 (plimit lim ++ X).
+Lemma clf_phaving w X : clf 4 X -> clf 3 (phaving w ++ X).
+Proof. intros H. destruct w; simpl. lia. (eapply clf_mono; [eassumption|lia]). Qed.
+Lemma clf_plimit lim X : clf 7 X -> clf 6 (plimit lim ++ X).
 Proof. intros H. destruct lim as [[[o|] rc]|]; simpl; try lia. (eapply clf_mono; [eassumption|lia]). Qed.
 
 Definition cl_oexpr (w : option expr) := match w with None => True | Some e => cl_or e end.
@@ -692,7 +754,7 @@ Definition cl_olimit (lim : option limit) :=
   match lim with None => True | Some (Limit None rc) => cl_or rc | Some (Limit (Some o) rc) => cl_or o /\ cl_or rc end.
 Definition selfol (R : list token) : Prop := match R with TK P_comma :: _ | TK K_from :: _ => True | _ => False end.
 Definition shd (X : list token) : Prop := match X with [] => False | TK K_distinct :: _ => False | _ => True end.
-Lemma shd_app X Y : shd X -> shd (X ++ Y). Proof. destruct X as [|[[]| | | | | | ] ?]; simpl; tauto. Qed.
+Lemma shd_app X Y : shd X -> shd (X ++ Y). Proof. destruct X as [|[[]| | | | | | | | | | ] ?]; simpl; tauto. Qed.
 Lemma hd_shd X : hd_ge 1 X -> shd X. Proof. intros H. tokcases X H; exact I. Qed.
 Definition cl_sel x := shd (psel x) /\ forall n R, (len (psel x) < n)%nat -> selfol R -> sel_item (PA n) (psel x ++ R) = Ok (x, R).
 Definition cl_sels xs := xs <> [] /\ shd (commas (map psel xs)) /\
@@ -767,7 +829,7 @@ Proof. intros H. unfold cl_order. rewrite sh_order. intros n R Hn HR.
     destruct d; reflexivity. destruct d; simpl; lia. Qed.
 Lemma case_ios_one x : cl_order x -> cl_orders [x].
 Proof. intros H. split; [discriminate|]. intros n R k Hn Hk HR. simpl map in *. rewrite commas_one in *.
-  apply sep_one. apply H; auto. unfold ofol. destruct R as [|[[]| | | | | | ] ?]; auto. apply clf_nc; auto. Qed.
+  apply sep_one. apply H; auto. unfold ofol. destruct R as [|[[]| | | | | | | | | | ] ?]; auto. apply clf_nc; auto. Qed.
 Lemma case_ios_cons x xs : cl_order x -> cl_orders xs -> cl_orders (x :: xs).
 Proof. intros H (Hne & Hxs). destruct xs as [|x' xs']; [contradiction|]. split; [discriminate|].
   intros n R k Hn Hk HR. simpl map in *. rewrite commas_cons2 in *. rewrite app_length in Hn. simpl in Hn.
@@ -776,12 +838,12 @@ Proof. intros H (Hne & Hxs). destruct xs as [|x' xs']; [contradiction|]. split; 
 
 (* ---------------------------------------------------------------- table expressions *)
 Definition thd (X : list token) : Prop := match X with TId _ :: _ | TK P_lparen :: _ => True | _ => False end.
-Lemma thd_app X Y : thd X -> thd (X ++ Y). Proof. destruct X as [|[[]| | | | | | ] ?]; simpl; tauto. Qed.
+Lemma thd_app X Y : thd X -> thd (X ++ Y). Proof. destruct X as [|[[]| | | | | | | | | | ] ?]; simpl; tauto. Qed.
 (* after a table factor: no alias, no '.', no '(' *)
 Definition tfc (t : token) : bool :=
   match t with
-  | TK P_comma | TK P_rparen | TK K_where | TK K_group | TK K_trigger | TK K_order | TK K_limit
-  | TK K_join | TK K_lookup | TK K_stream | TK K_left | TK K_right | TK K_outer | TK K_on => true
+  | TK P_comma | TK P_rparen | TK K_where | TK K_group | TK K_having | TK K_trigger | TK K_order | TK K_limit
+  | TK K_join | TK K_lookup | TK K_stream | TK K_left | TK K_right | TK K_outer | TK K_inner | TK K_cross | TK K_on => true
   | _ => false
   end.
 Definition tffol (R : list token) : Prop := match R with [] => True | t :: _ => tfc t = true end.
@@ -792,9 +854,9 @@ Definition trfol (R : list token) : Prop := match R with [] => True | t :: _ => 
 Lemma jfol_tffol R : jfol R -> tffol R. Proof. destruct R; simpl; tauto. Qed.
 Lemma tffol_fol R : tffol R -> fol 1 R. Proof. intros H. tokcases R H; simpl; try exact I; try lia; discriminate. Qed.
 Lemma trfol_jfol R : trfol R -> jfol R.
-Proof. destruct R as [|t R]; [intros; exact I|]. destruct t as [[]| | | | | | ]; simpl; intros [H|H]; try discriminate; try lia; split; try reflexivity; discriminate. Qed.
+Proof. destruct R as [|t R]; [intros; exact I|]. destruct t as [[]| | | | | | | | | | ]; simpl; intros [H|H]; try discriminate; try lia; split; try reflexivity; discriminate. Qed.
 Lemma trfol_nojoin R : trfol R -> join_head R = None.
-Proof. destruct R as [|t R]; [reflexivity|]. destruct t as [[]| | | | | | ]; simpl; intros [H|H]; try discriminate; try lia; reflexivity. Qed.
+Proof. destruct R as [|t R]; [reflexivity|]. destruct t as [[]| | | | | | | | | | ]; simpl; intros [H|H]; try discriminate; try lia; reflexivity. Qed.
 Lemma clf_trfol R : clf 1 R -> trfol R. Proof. destruct R; simpl; auto. Qed.
 Lemma join_stop P k a R : join_head R = None -> join_loop P k a R = Ok (a, R).
 Proof. intros H. destruct k; simpl; rewrite H; reflexivity. Qed.
@@ -826,19 +888,19 @@ Proof. intros (_ & H) n R Hn. destruct n; [lia|]. change (p_tref (PA (S n))) wit
 
 Section Dispatch3.
 Variable P : parsers.
-Lemma d_tfactor_sub X R : (exists tl, X = TK K_select :: tl) ->
+Lemma d_tfactor_sub X R : shead X ->
   tfactor_ P (TK P_lparen :: X ++ R) =
   obind (p_select P (X ++ R)) (fun p => let '(s, r1) := p in expect P_rparen r1 (fun r2 => alias_req r2 (fun a r3 => Ok (TSub s a, r3)))).
-Proof. intros [tl ->]. reflexivity. Qed.
+Proof. intros H. destruct X as [|[[]| | | | | | | | | | ] ?]; simpl in H; try contradiction; reflexivity. Qed.
 Lemma d_tfactor_paren X R : thd X ->
   tfactor_ P (TK P_lparen :: X ++ R) =
   obind (sep_list (p_tref P) (List.length (X ++ R)) (X ++ R)) (fun p => let '(l, r1) := p in expect P_rparen r1 (fun r2 => Ok (TParen l, r2))).
-Proof. intros H. destruct X as [|[[]| | | | | | ] ?]; simpl in H; try contradiction; reflexivity. Qed.
+Proof. intros H. destruct X as [|[[]| | | | | | | | | | ] ?]; simpl in H; try contradiction; reflexivity. Qed.
 Lemma d_tfactor_func f X R : ahd X ->
   tfactor_ P (TId f :: TK P_lparen :: X ++ R) =
   obind (sep_list (tvf_arg_ P) (List.length (X ++ R)) (X ++ R)) (fun p => let '(args, r1) := p in
     expect P_rparen r1 (fun r2 => alias_req r2 (fun a r3 => Ok (TFunc f args a, r3)))).
-Proof. intros H. destruct X as [|[[]| | | | | | ] ?]; simpl in H; try contradiction; reflexivity. Qed.
+Proof. intros H. destruct X as [|[[]| | | | | | | | | | ] ?]; simpl in H; try contradiction; reflexivity. Qed.
 Lemma d_tvf_expr n X R : hd_ge 1 X ->
   tvf_arg_ P (TId n :: TK P_rarrow :: X ++ R) = obind (p_expr P (X ++ R)) (fun p => let '(e, r1) := p in Ok (AExpr n e, r1)).
 Proof. intros H. tokcases X H. Qed.
@@ -875,7 +937,7 @@ Proof. intros Hs (Hh & Hl) (_ & Hr) Hon. unfold cl_tref. rewrite sh_tjoin. split
                     join_loop (PA n) (S k) l rest = join_loop (PA n) k (TJoin l st JInner r on) R).
     { intros st rest Hj. simpl. rewrite Hj, Hf. destruct on as [e|]; simpl.
       - simpl in Hon. rewrite entry_expr; auto. simpl in Hn. lia. apply tffol_fol, jfol_tffol; auto.
-      - destruct R as [|[[]| | | | | | ] ?]; try reflexivity. destruct HR as [_ HR]. contradiction. }
+      - destruct R as [|[[]| | | | | | | | | | ] ?]; try reflexivity. destruct HR as [_ HR]. contradiction. }
     destruct s; try contradiction; rewrite <- !app_assoc; apply Hloop; reflexivity.
   - destruct s; try contradiction; simpl; lia. Qed.
 Lemma case_itr_outer l k r e : k <> JInner -> cl_tref l -> cl_tfactor r -> cl_or e -> cl_tref (TJoin l SNone k r (Some e)).
@@ -911,7 +973,7 @@ Proof. unfold cl_arg. destruct t; [rewrite sh_adesc0|rewrite sh_adesc1]; (split;
 Lemma case_ias_one x : cl_arg x -> cl_args [x].
 Proof. intros (Hh & H). split; [discriminate|]. split; [exact Hh|]. intros n R k Hn Hk [r ->]. simpl map in *. rewrite commas_one in *.
   apply sep_one. apply H; simpl; auto. exact I. Qed.
-Lemma ahd_app X Y : ahd X -> ahd (X ++ Y). Proof. destruct X as [|[[]| | | | | | ] ?]; simpl; tauto. Qed.
+Lemma ahd_app X Y : ahd X -> ahd (X ++ Y). Proof. destruct X as [|[[]| | | | | | | | | | ] ?]; simpl; tauto. Qed.
 Lemma case_ias_cons x xs : cl_arg x -> cl_args xs -> cl_args (x :: xs).
 Proof. intros (Hh & H) (Hne & _ & Hxs). destruct xs as [|x' xs']; [contradiction|]. split; [discriminate|].
   split. { simpl map. rewrite commas_cons2. apply ahd_app; auto. }
@@ -936,19 +998,23 @@ Proof. intros [->|(Hne & _ & H)] Hn HX.
   - simpl. tokcases X HX.
   - destruct gb as [|g gb]; [contradiction|]. unfold kw_list in *. simpl map in *. cbn [app] in *. simpl in Hn.
     simpl. apply H. lia. apply klen with (f := pe) (l := g :: gb). apply clf_nc. (eapply clf_mono; [eassumption|lia]). apply clf_fol. (eapply clf_mono; [eassumption|lia]). Qed.
-Lemma triggers_ok trs n X : cl_triggers0 trs -> (len (kw_list [TK K_trigger] (map ptr trs)) <= n)%nat -> clf 4 X ->
+Lemma having_ok w n X : cl_oexpr w -> (len (phaving w) <= n)%nat -> clf 4 X -> having_opt (PA n) (phaving w ++ X) = Ok (w, X).
+Proof. intros H Hn HX. destruct w as [e|]; simpl in *.
+  - rewrite entry_expr; auto. apply clf_fol. (eapply clf_mono; [eassumption|lia]).
+  - tokcases X HX. Qed.
+Lemma triggers_ok trs n X : cl_triggers0 trs -> (len (kw_list [TK K_trigger] (map ptr trs)) <= n)%nat -> clf 5 X ->
   triggers_opt (PA n) (kw_list [TK K_trigger] (map ptr trs) ++ X) = Ok (trs, X).
 Proof. intros [->|(Hne & H)] Hn HX.
   - simpl. tokcases X HX.
   - destruct trs as [|g trs]; [contradiction|]. unfold kw_list in *. simpl map in *. cbn [app] in *. simpl in Hn.
     simpl. apply H. lia. apply klen with (f := ptr) (l := g :: trs). (eapply clf_mono; [eassumption|lia]). Qed.
-Lemma orderby_ok ob n X : cl_orders0 ob -> (len (kw_list [TK K_order; TK K_by] (map pord ob)) <= n)%nat -> clf 5 X ->
+Lemma orderby_ok ob n X : cl_orders0 ob -> (len (kw_list [TK K_order; TK K_by] (map pord ob)) <= n)%nat -> clf 6 X ->
   orderby_opt (PA n) (kw_list [TK K_order; TK K_by] (map pord ob) ++ X) = Ok (ob, X).
 Proof. intros [->|(Hne & H)] Hn HX.
   - simpl. tokcases X HX.
   - destruct ob as [|g ob]; [contradiction|]. unfold kw_list in *. simpl map in *. cbn [app] in *. simpl in Hn.
     simpl. apply H. lia. apply klen with (f := pord) (l := g :: ob). (eapply clf_mono; [eassumption|lia]). Qed.
-Lemma limit_ok lim n X : cl_olimit lim -> (len (plimit lim) <= n)%nat -> clf 6 X -> limit_opt (PA n) (plimit lim ++ X) = Ok (lim, X).
+Lemma limit_ok lim n X : cl_olimit lim -> (len (plimit lim) <= n)%nat -> clf 7 X -> limit_opt (PA n) (plimit lim ++ X) = Ok (lim, X).
 Proof. intros H Hn HX. assert (HfX : fol 1 X) by (apply clf_fol; (eapply clf_mono; [eassumption|lia])).
   destruct lim as [[[o|] rc]|]; simpl in *.
   - destruct H as [Ho Hrc]. rewrite app_length in Hn. simpl in Hn. rewrite <- app_assoc. cbn [app].
@@ -956,47 +1022,184 @@ Proof. intros H Hn HX. assert (HfX : fol 1 X) by (apply clf_fol; (eapply clf_mon
   - rewrite entry_expr; auto. simpl. tokcases X HX.
   - tokcases X HX. Qed.
 
-Lemma case_isel d items from w gb trs ob lim :
-  cl_sels items -> cl_trefs from -> cl_oexpr w -> cl_exprs0 gb -> cl_triggers0 trs -> cl_orders0 ob -> cl_olimit lim ->
-  cl_select (Select d items from w gb trs ob lim).
+Lemma case_isel d items from w gb hv trs ob lim :
+  cl_sels items -> cl_trefs from -> cl_oexpr w -> cl_exprs0 gb -> cl_oexpr hv -> cl_triggers0 trs -> cl_orders0 ob -> cl_olimit lim ->
+  cl_select (Select d items from w gb hv trs ob lim).
 Proof.
-  intros (Hine & Hih & Hitems) Hfrom Hw Hgb Htrs Hob Hlim. unfold cl_select. rewrite sh_select. intros n R Hn HR.
+  intros (Hine & Hih & Hitems) Hfrom Hw Hgb Hhv Htrs Hob Hlim. unfold cl_select. rewrite sh_select. intros n R Hn HR.
   simpl in Hn. rewrite !app_length in Hn. simpl in Hn. rewrite !app_length in Hn.
   set (X5 := plimit lim ++ R). set (X4 := kw_list [TK K_order; TK K_by] (map pord ob) ++ X5).
-  set (X3 := kw_list [TK K_trigger] (map ptr trs) ++ X4). set (X2 := kw_list [TK K_group; TK K_by] (map pe gb) ++ X3).
+  set (X3 := kw_list [TK K_trigger] (map ptr trs) ++ X4). set (X3' := phaving hv ++ X3).
+  set (X2 := kw_list [TK K_group; TK K_by] (map pe gb) ++ X3').
   set (X1 := pwhere w ++ X2).
-  assert (C5 : clf 5 X5) by (apply clf_plimit, sfol_clf; auto).
-  assert (C4 : clf 4 X4) by (apply clf_kwlist; [exact C5|simpl; lia]).
-  assert (C3 : clf 3 X3) by (apply clf_kwlist; [exact C4|simpl; lia]).
-  assert (C2 : clf 2 X2) by (apply clf_kwlist; [exact C3|simpl; lia]).
+  assert (C5 : clf 6 X5) by (apply clf_plimit, sfol_clf; auto).
+  assert (C4 : clf 5 X4) by (apply clf_kwlist; [exact C5|simpl; lia]).
+  assert (C3 : clf 4 X3) by (apply clf_kwlist; [exact C4|simpl; lia]).
+  assert (C3' : clf 3 X3') by (apply clf_phaving; exact C3).
+  assert (C2 : clf 2 X2) by (apply clf_kwlist; [exact C3'|simpl; lia]).
   assert (C1 : clf 1 X1) by (apply clf_pwhere; exact C2).
   assert (E : (TK K_select :: (if d then [TK K_distinct] else []) ++ commas (map psel items) ++ TK K_from :: commas (map pt from) ++
-               pwhere w ++ kw_list [TK K_group; TK K_by] (map pe gb) ++ kw_list [TK K_trigger] (map ptr trs) ++
+               pwhere w ++ kw_list [TK K_group; TK K_by] (map pe gb) ++ phaving hv ++ kw_list [TK K_trigger] (map ptr trs) ++
                kw_list [TK K_order; TK K_by] (map pord ob) ++ plimit lim) ++ R
               = TK K_select :: (if d then [TK K_distinct] else []) ++ commas (map psel items) ++ (TK K_from :: commas (map pt from) ++ X1)).
-  { unfold X1, X2, X3, X4, X5. cbn [app]. rewrite <- !app_assoc. cbn [app]. rewrite <- !app_assoc. reflexivity. }
+  { unfold X1, X2, X3', X3, X4, X5. cbn [app]. rewrite <- !app_assoc. cbn [app]. rewrite <- !app_assoc. reflexivity. }
   rewrite E. clear E.
   assert (Hd : distinct_opt ((if d then [TK K_distinct] else []) ++ commas (map psel items) ++ (TK K_from :: commas (map pt from) ++ X1))
                = (d, commas (map psel items) ++ (TK K_from :: commas (map pt from) ++ X1))).
   { destruct d; [reflexivity|]. cbn [app]. set (Y := TK K_from :: _). clearbody Y.
-    destruct (commas (map psel items)) as [|[[]| | | | | | ] ?]; simpl in Hih; try contradiction; reflexivity. }
+    destruct (commas (map psel items)) as [|[[]| | | | | | | | | | ] ?]; simpl in Hih; try contradiction; reflexivity. }
   unfold select_. rewrite Hd.
   rewrite Hitems; [|destruct d; simpl in Hn; lia|apply klen|eauto]. cbn [obind].
   rewrite from_ok; auto; [|destruct d; simpl in Hn; lia]. cbn [obind].
   unfold X1. rewrite where_ok; auto; [|destruct d; simpl in Hn; lia]. cbn [obind].
   unfold X2. rewrite groupby_ok; auto; [|destruct d; simpl in Hn; lia]. cbn [obind].
+  unfold X3'. rewrite having_ok; auto; [|destruct d; simpl in Hn; lia]. cbn [obind].
   unfold X3. rewrite triggers_ok; auto; [|destruct d; simpl in Hn; lia]. cbn [obind].
   unfold X4. rewrite orderby_ok; auto; [|destruct d; simpl in Hn; lia]. cbn [obind].
   unfold X5. rewrite limit_ok; [reflexivity|auto|destruct d; simpl in Hn; lia|apply sfol_clf; auto].
 Qed.
 
+
+(* ---------------------------------------------------------------- constructs added in the deepening round *)
+Lemma case_ipf_index e i : cl_postfix e -> cl_add i -> cl_postfix (EIndex e i).
+Proof. intros (Hh & Hs & Hp) Hi. unfold cl_postfix. rewrite sh_index. split; [apply hd_ge_app; auto|]. split; [exact Hs|]. intros n R Hn HR.
+  rewrite app_length in Hn. simpl in Hn. rewrite app_length in Hn. simpl in Hn. apply lst_step with (l := e).
+  - apply Hp. lia. simpl; lia.
+  - intros k. cbn [app]. rewrite <- app_assoc. cbn [app]. simpl. rewrite entry_add; [|exact Hi|lia|simpl; lia]. simpl. reflexivity.
+  - simpl; lia. Qed.
+
+Lemma case_ic_between neg l f t : cl_add l -> cl_add f -> cl_add t -> cl_cond (ERange neg l f t).
+Proof. intros Hl Hf Ht. unfold cl_cond. rewrite sh_range. split; [apply hd_ge_app; eapply hd_ge_mono; [apply Hl|lia]|]. intros n R Hn HR.
+  rewrite !app_length in Hn. simpl in Hn. rewrite <- app_assoc. rewrite d_cond by apply Hl.
+  destruct neg; simpl in Hn; cbn [app]; (rewrite (full_add l Hl) by (try lia; simpl; lia)); cbn [obind]; unfold cond_rest, between_;
+  rewrite <- !app_assoc; cbn [app]; (rewrite (full_add f Hf) by (try lia; simpl; lia)); simpl;
+  (rewrite (full_add t Ht) by (try lia; eapply fol_mono; eauto)); reflexivity. Qed.
+
+Lemma d_cond_exists P X R : shead X ->
+  cond_ P (TK K_exists :: TK P_lparen :: X ++ R) =
+  obind (p_select P (X ++ R)) (fun p => let '(s, r1) := p in expect P_rparen r1 (fun r2 => Ok (EExists s, r2))).
+Proof. intros H. destruct X as [|[[]| | | | | | | | | | ] ?]; simpl in H; try contradiction; reflexivity. Qed.
+Lemma case_ic_exists s : cl_select s -> cl_cond (EExists s).
+Proof. intros H. unfold cl_cond. rewrite sh_exists. split; [simpl; lia|]. intros n R Hn HR. simpl in Hn. rewrite app_length in Hn. simpl in Hn.
+  norm. rewrite d_cond_exists by apply ps_head. rewrite entry_select; simpl; auto. lia. Qed.
+
+(* WITH *)
+Definition cl_cte c := forall n R, (len (pcte c) < n)%nat -> cte_ (PA n) (pcte c ++ R) = Ok (c, R).
+Definition cl_ctes cs := cs <> [] /\
+  forall n R k, (len (commas (map pcte cs)) < n)%nat -> (List.length cs <= S k)%nat -> shead R ->
+    ctes_ (PA n) k (commas (map pcte cs) ++ R) = Ok (cs, R).
+Lemma case_icte n s : cl_select s -> cl_cte (Cte n s).
+Proof. intros H. unfold cl_cte. rewrite sh_cte. intros k R Hk. simpl in Hk. rewrite app_length in Hk. simpl in Hk.
+  norm. simpl. rewrite entry_select; simpl; auto. lia. Qed.
+Lemma case_ict_one c : cl_cte c -> cl_ctes [c].
+Proof. intros H. split; [discriminate|]. intros n R k Hn Hk HR. simpl map in *. rewrite commas_one in *.
+  destruct k; simpl; rewrite H by auto; simpl; destruct R as [|[[]| | | | | | | | | | ] ?]; simpl in HR; try contradiction; reflexivity. Qed.
+Lemma case_ict_cons c cs : cl_cte c -> cl_ctes cs -> cl_ctes (c :: cs).
+Proof. intros H (Hne & Hcs). destruct cs as [|c' cs']; [contradiction|]. split; [discriminate|].
+  intros n R k Hn Hk HR. simpl map in *. rewrite commas_cons2 in *. rewrite app_length in Hn. simpl in Hn.
+  destruct k; [simpl in Hk; lia|]. rewrite <- app_assoc. cbn [app].
+  assert (Hrest : ctes_ (PA n) k (commas (pcte c' :: map pcte cs') ++ R) = Ok (c' :: cs', R)) by (apply Hcs; auto; [lia|simpl in *; lia]).
+  simpl ctes_. rewrite H by lia. cbn [obind].
+  destruct c' as [n' s'].
+  assert (E : exists tl, commas (pcte (Cte n' s') :: map pcte cs') ++ R = TId n' :: tl).
+  { destruct (map pcte cs'); [rewrite commas_one|rewrite commas_cons2]; rewrite sh_cte; cbn [app]; eexists; reflexivity. }
+  destruct E as [tl E]. rewrite E in *. cbn [obind]. rewrite Hrest. reflexivity. Qed.
+Lemma case_iwith ctes body : cl_ctes ctes -> cl_select body -> cl_select (With ctes body).
+Proof. intros (Hne & Hc) Hb. unfold cl_select. rewrite sh_with. intros n R Hn HR. simpl in Hn. rewrite app_length in Hn.
+  cbn [app]. rewrite <- app_assoc. simpl select_. rewrite Hc; [|lia|apply klen|apply shead_app, ps_head]. cbn [obind].
+  rewrite entry_select; auto. lia. Qed.
+
+(* CASE *)
+Arguments pwhen : simpl never.
+Definition wfol (R : list token) : Prop := match R with TK K_else :: _ | TK K_end :: _ => True | _ => False end.
+Definition cl_whens ws := ws <> [] /\
+  forall n R k, (len (List.concat (map pwhen ws)) < n)%nat -> (List.length ws <= S k)%nat -> wfol R ->
+    whens_ (PA n) k (List.concat (map pwhen ws) ++ R) = Ok (ws, R).
+Lemma when_step n c v k R' : cl_or c -> cl_or v -> (len (pe c) < n)%nat -> (len (pe v) < n)%nat -> fol 1 R' ->
+  whens_ (PA n) k (pwhen (c, v) ++ R') =
+  match R' with
+  | TK K_when :: _ => match k with O => Err E_fuel | S k' => obind (whens_ (PA n) k' R') (fun p => let '(ws, r4) := p in Ok ((c, v) :: ws, r4)) end
+  | _ => Ok ([(c, v)], R')
+  end.
+Proof. intros Hc Hv Hn1 Hn2 HR. unfold pwhen. cbn [fst snd app]. rewrite <- app_assoc. cbn [app].
+  destruct k; simpl; (rewrite entry_expr by (auto; simpl; lia)); simpl; (rewrite entry_expr by auto); reflexivity. Qed.
+Lemma case_iw_one c v : cl_or c -> cl_or v -> cl_whens [(c, v)].
+Proof. intros Hc Hv. split; [discriminate|]. intros n R k Hn Hk HR. simpl List.concat in *. rewrite app_nil_r in *.
+  unfold pwhen in Hn. cbn [fst snd] in Hn. simpl in Hn. rewrite app_length in Hn. simpl in Hn.
+  assert (HfR : fol 1 R) by (destruct R as [|[[]| | | | | | | | | | ] ?]; simpl in HR; try contradiction; simpl; lia).
+  change ((TK K_when :: pe c ++ TK K_then :: pe v) ++ R) with (pwhen (c, v) ++ R).
+  rewrite when_step; auto; try lia. destruct R as [|[[]| | | | | | | | | | ] ?]; simpl in HR; try contradiction; reflexivity. Qed.
+Lemma pwhen_len c v : len (pwhen (c, v)) = S (len (pe c) + S (len (pe v))).
+Proof. unfold pwhen. simpl. rewrite app_length. reflexivity. Qed.
+Lemma case_iw_cons c v ws : cl_or c -> cl_or v -> cl_whens ws -> cl_whens ((c, v) :: ws).
+Proof. intros Hc Hv (Hne & Hws). split; [discriminate|]. intros n R k Hn Hk HR.
+  change (List.concat (map pwhen ((c, v) :: ws))) with (pwhen (c, v) ++ List.concat (map pwhen ws)) in *.
+  rewrite app_length, pwhen_len in Hn. rewrite <- app_assoc.
+  destruct ws as [|[c' v'] ws']; [contradiction|].
+  rewrite when_step; auto; try lia.
+  - change (List.concat (map pwhen ((c', v') :: ws'))) with (pwhen (c', v') ++ List.concat (map pwhen ws')) at 1.
+    unfold pwhen at 1. cbn [app].
+    destruct k; [simpl in Hk; lia|].
+    change (TK K_when :: (pe (fst (c', v')) ++ TK K_then :: pe (snd (c', v'))) ++ List.concat (map pwhen ws')) with (List.concat (map pwhen ((c', v') :: ws'))).
+    rewrite Hws; auto. lia. simpl in *; lia.
+  - change (List.concat (map pwhen ((c', v') :: ws'))) with (pwhen (c', v') ++ List.concat (map pwhen ws')). unfold pwhen. simpl. lia.
+Qed.
+
+Lemma d_case_some P X R : hd_ge 1 X ->
+  primary_ P (TK K_case :: X ++ R) =
+  obind (obind (p_expr P (X ++ R)) (fun p => let '(x, r') := p in Ok (Some x, r'))) (fun p => let '(e, r1) := p in
+    obind (whens_ P (List.length r1) r1) (fun q => let '(ws, r2) := q in
+      match r2 with
+      | TK K_else :: r3 => obind (p_expr P r3) (fun z => let '(x, r4) := z in expect K_end r4 (fun r5 => Ok (ECase e ws (Some x), r5)))
+      | TK K_end :: r3 => Ok (ECase e ws None, r3)
+      | _ => Err E_syntax
+      end)).
+Proof. intros H. tokcases X H. Qed.
+Lemma d_case_none P Y :
+  primary_ P (TK K_case :: TK K_when :: Y) =
+    obind (whens_ P (List.length (TK K_when :: Y)) (TK K_when :: Y)) (fun q => let '(ws, r2) := q in
+      match r2 with
+      | TK K_else :: r3 => obind (p_expr P r3) (fun z => let '(x, r4) := z in expect K_end r4 (fun r5 => Ok (ECase None ws (Some x), r5)))
+      | TK K_end :: r3 => Ok (ECase None ws None, r3)
+      | _ => Err E_syntax
+      end).
+Proof. reflexivity. Qed.
+Lemma wlen ws R : (List.length ws <= S (len (List.concat (map pwhen ws) ++ R)))%nat.
+Proof. rewrite app_length. assert (H : (List.length ws <= len (List.concat (map pwhen ws)))%nat).
+  { induction ws as [|[c v] ws IH]; [simpl; lia|].
+    change (List.concat (map pwhen ((c, v) :: ws))) with (pwhen (c, v) ++ List.concat (map pwhen ws)).
+    rewrite app_length, pwhen_len. simpl. lia. }
+  lia. Qed.
+Lemma case_ip_case e ws els : cl_oexpr e -> cl_whens ws -> cl_oexpr els -> cl_primary (ECase e ws els).
+Proof. intros He (Hne & Hws) Hel. unfold cl_primary. rewrite sh_case. split; [simpl; lia|]. split; [reflexivity|]. intros n R Hn HR.
+  simpl in Hn. rewrite !app_length in Hn.
+  assert (Htail : forall k, k = List.length (List.concat (map pwhen ws) ++ popt K_else els ++ TK K_end :: R) ->
+     obind (whens_ (PA n) k (List.concat (map pwhen ws) ++ popt K_else els ++ TK K_end :: R)) (fun q => let '(ws0, r2) := q in
+      match r2 with
+      | TK K_else :: r3 => obind (p_expr (PA n) r3) (fun z => let '(x, r4) := z in expect K_end r4 (fun r5 => Ok (ECase e ws0 (Some x), r5)))
+      | TK K_end :: r3 => Ok (ECase e ws0 None, r3)
+      | _ => Err E_syntax
+      end) = Ok (ECase e ws els, R)).
+  { intros k ->. rewrite Hws; [|destruct e; simpl in Hn; lia|apply wlen|destruct els; exact I]. cbn [obind].
+    destruct els as [x|]; simpl in *.
+    - rewrite entry_expr; auto. destruct e; simpl in Hn; lia. simpl; lia.
+    - reflexivity. }
+  assert (E : exists Y, List.concat (map pwhen ws) ++ popt K_else els ++ TK K_end :: R = TK K_when :: Y).
+  { destruct ws as [|[c v] ws']; [contradiction|].
+    change (List.concat (map pwhen ((c, v) :: ws'))) with (pwhen (c, v) ++ List.concat (map pwhen ws')). unfold pwhen. cbn [app]. eexists; reflexivity. }
+  destruct e as [x|]; cbn [app]; rewrite <- ?app_assoc; cbn [app].
+  - simpl in He. rewrite d_case_some by apply He. rewrite entry_expr; auto; [|simpl in Hn; lia|].
+    cbn [obind]. apply Htail. reflexivity.
+    destruct E as [Y ->]. simpl. lia.
+  - destruct E as [Y E]. rewrite E. rewrite d_case_none. rewrite <- E. apply Htail. reflexivity. Qed.
+
 (* ---------------------------------------------------------------- assembling the induction *)
 Theorem image_claims :
-  (forall a, im_primary a -> cl_primary a) /\ (forall a, im_postfix a -> cl_postfix a) /\ (forall a, im_unary a -> cl_unary a) /\
+  (forall a, im_primary a -> cl_primary a) /\ (forall l, im_whens l -> cl_whens l) /\ (forall a, im_postfix a -> cl_postfix a) /\ (forall a, im_unary a -> cl_unary a) /\
   (forall a, im_mul a -> cl_mul a) /\ (forall a, im_add a -> cl_add a) /\ (forall a, im_cond a -> cl_cond a) /\
   (forall a, im_is a -> cl_is a) /\ (forall a, im_not a -> cl_not a) /\ (forall a, im_and a -> cl_and a) /\
   (forall a, im_or a -> cl_or a) /\ (forall l, im_exprs l -> cl_exprs l) /\ (forall w, im_oexpr w -> cl_oexpr w) /\
-  (forall l, im_exprs0 l -> cl_exprs0 l) /\ (forall s, im_select s -> cl_select s) /\ (forall l, im_olimit l -> cl_olimit l) /\
+  (forall l, im_exprs0 l -> cl_exprs0 l) /\ (forall s, im_select s -> cl_select s) /\ (forall c, im_cte c -> cl_cte c) /\ (forall l, im_ctes l -> cl_ctes l) /\ (forall l, im_olimit l -> cl_olimit l) /\
   (forall x, im_sel x -> cl_sel x) /\ (forall l, im_sels l -> cl_sels l) /\ (forall t, im_tfactor t -> cl_tfactor t) /\
   (forall t, im_tref t -> cl_tref t) /\ (forall l, im_trefs l -> cl_trefs l) /\ (forall x, im_arg x -> cl_arg x) /\
   (forall l, im_args l -> cl_args l) /\ (forall l, im_args0 l -> cl_args0 l) /\ (forall x, im_trigger x -> cl_trigger x) /\
@@ -1012,7 +1215,8 @@ Proof.
     case_iss_cons, case_itf_name, case_itf_sub, case_itf_paren, case_itf_func, case_itr_inner, case_itr_outer, case_itr_base,
     case_its_one, case_its_cons, case_iar_expr, case_iar_table, case_iar_desc, case_ias_one, case_ias_cons,
     case_itg_counting, case_itg_watermark, case_itg_eos, case_itg_delay, case_itgs_one, case_itgs_cons, case_iord,
-    case_ios_one, case_ios_cons;
+    case_ios_one, case_ios_cons, case_ip_case, case_iw_one, case_iw_cons, case_ipf_index, case_ic_between, case_ic_exists,
+    case_iwith, case_icte, case_ict_one, case_ict_cons;
   try (simpl; exact I); try (left; reflexivity); try (right; assumption); try (simpl; auto).
 Qed.
 
@@ -1020,7 +1224,7 @@ Definition parser_image (s : select) : Prop := im_select s.
 
 Theorem roundtrip : forall s, parser_image s -> parse (print s) = Ok s.
 Proof.
-  intros s H. destruct image_claims as (_ & _ & _ & _ & _ & _ & _ & _ & _ & _ & _ & _ & _ & Hs & _).
+  intros s H. destruct image_claims as (_ & _ & _ & _ & _ & _ & _ & _ & _ & _ & _ & _ & _ & _ & Hs & _).
   specialize (Hs s H). unfold parse, print.
   change (p_select (PA (S (List.length (ps s))))) with (select_ (PA (List.length (ps s)))).
   rewrite <- (app_nil_r (ps s)) at 2. rewrite Hs; auto. exact I.
@@ -1033,7 +1237,7 @@ Ltac img := repeat first [exact I | reflexivity | discriminate
 
 Definition id_a : ident := [97]. Definition id_b : ident := [98]. Definition id_t : ident := [116]. Definition id_f : ident := [102].
 Definition one : expr := ELit (LInt false [49]).
-Definition sel_of (from : list table_expr) (trs : list trigger) : select := Select false [SStar] from None [] trs [] None.
+Definition sel_of (from : list table_expr) (trs : list trigger) : select := Select false [SStar] from None [] None trs [] None.
 
 (* a statement using every extension is in the parser's image (the hypotheses of the theorem are satisfiable) *)
 Definition example_stmt : select :=
@@ -1045,7 +1249,7 @@ Definition example_stmt : select :=
        (Some (ECmp OEq (ECol [] id_a) (ECol [] id_b)));
      TJoin (TName [] id_a []) SNone JLeft (TSub (sel_of [TName [] id_t []] []) id_b) (Some (ELit LTrue))]
     (Some (EAnd (EIs IsNotNull (ECol [] id_a)) (ENot (ECmp ONotIn (ECol [] id_a) (ETuple [one])))))
-    [ECol [] id_a]
+    [ECol [] id_a] None
     [TrCounting (ELit (LInt false [51])); TrEndOfStream; TrDelay (EInterval one id_a); TrWatermark]
     [Order (ECol [] id_a) true; Order (ELit LNull) false] (Some (Limit (Some one) one)).
 Lemma example_in_image : parser_image example_stmt. Proof. unfold parser_image, example_stmt, sel_of, one. img. Qed.
@@ -1067,3 +1271,17 @@ Proof. exists (sel_of [TName [] id_t []] [TrEndOfStream]). split. unfold parser_
 Lemma pinned_delay_unparsable :
   exists s, parser_image s /\ parse (print_select templates_pinned_delay s) = Err E_syntax.
 Proof. exists (sel_of [TName [] id_t []] [TrDelay one]). split. unfold parser_image, sel_of, one; img. vm_compute. reflexivity. Qed.
+
+(* a statement with the constructs of the deepening round: WITH (nested, several CTEs), HAVING, CASE, [NOT] BETWEEN, EXISTS,
+   e[i], the regexp operators, hex / bit / bind-variable literals *)
+Definition example_stmt2 : select :=
+  With [Cte id_a (sel_of [TName [] id_t []] []); Cte id_b (With [Cte id_f (sel_of [TName [] id_a []] [])] (sel_of [TName [] id_f []] []))]
+    (Select false
+       [SExpr (ECase (Some (ECol [] id_a)) [(one, ELit (LHex [49; 102])); (ELit (LArg [58; 118; 49]), ELit (LBit [48; 49]))] (Some (ELit LNull))) id_b;
+        SExpr (EIndex (EField (ECol [] id_a) id_b) (EBin BPlus one one)) [];
+        SExpr (ECase None [(ECmp OLikeRe (ECol [] id_a) (ELit (LStr [94; 97])), one)] None) []]
+       [TJoin (TName [] id_a []) SUndefined JInner (TName [] id_b []) None]
+       (Some (EAnd (ERange true (ECol [] id_a) one (EBin BPlus one one)) (ENot (EExists (sel_of [TName [] id_t []] [])))))
+       [ECol [] id_a] (Some (ECmp ONotRegexp (ECol [] id_a) (ELit (LHexNum [48; 120; 49])))) [TrWatermark] [] None).
+Lemma example2_in_image : parser_image example_stmt2. Proof. unfold parser_image, example_stmt2, sel_of, one. img. Qed.
+Lemma example2_roundtrips : parse (print example_stmt2) = Ok example_stmt2. Proof. vm_compute. reflexivity. Qed.
